@@ -123,6 +123,8 @@ func runCaps(e *capsEntry, implicit bool, n int) []string {
 	code("RSET")
 	probe("mail_size_ok", code(fmt.Sprintf("%s SIZE=%d", mail, n-1)))
 	code("RSET")
+	probe("mail_size_exact", code(fmt.Sprintf("%s SIZE=%d", mail, n)))
+	code("RSET")
 	probe("mail_size_over", code(fmt.Sprintf("%s SIZE=%d", mail, n+1)))
 	code("RSET")
 	code(mail)
